@@ -66,52 +66,81 @@ func deadlineFor(tier string) time.Duration {
 }
 
 // Worker explores the scenarios i, i+n, i+2n, ... of the check and prints its statistics as JSON.
+// The deviation bound is iterated in the OUTER loop (all scenarios at bound 0, then all at bound
+// 1, ...), so that when a deadline strikes the largest bound completed for EVERY scenario is
+// well defined and as large as possible.
 func Worker(id, tier string, i, n int) {
 	def := Defs[id]
 	scs := def.Gen(tier)
-	total := explore.NewStats()
 	deadline := time.Now().Add(deadlineFor(tier))
-	minDone := 1 << 30
+	type state struct {
+		sc     explore.Scenario
+		bound  int
+		last   *explore.Stats
+		done   int  // largest bound completed (-1: none)
+		closed bool // nothing left to explore (requested bound reached or every interleaving covered)
+		seen   map[string]bool
+		found  []explore.Found
+	}
+	var sts []*state
+	maxBound := 0
 	for k := i; k < len(scs); k += n {
-		sc := scs[k]
-		bound := def.Bound(tier, sc)
+		st := &state{sc: scs[k], bound: def.Bound(tier, scs[k]), done: -1, seen: map[string]bool{}}
 		if v, err := strconv.Atoi(os.Getenv("VERIF_BOUND")); err == nil {
-			bound = v // experiments only
+			st.bound = v // experiments only
 		}
-		var last *explore.Stats
-		done := -1
-		var found []explore.Found
-		seen := map[string]bool{}
-		for _, b := range boundSequence(bound) {
-			st := explore.NewStats()
-			e := &explore.Explorer{Bound: b, Deadline: deadline, Stats: st}
-			ok := e.Explore(sc)
-			for _, f := range st.Found {
-				if !seen[f.Violation] {
-					seen[f.Violation] = true
-					found = append(found, f)
+		if st.bound > maxBound {
+			maxBound = st.bound
+		}
+		sts = append(sts, st)
+	}
+	capped := false
+	for _, b := range boundSequence(maxBound) {
+		for _, st := range sts {
+			if st.closed || capped {
+				continue
+			}
+			bb := b
+			if bb > st.bound {
+				bb = st.bound
+			}
+			if bb <= st.done {
+				st.closed = true
+				continue
+			}
+			stats := explore.NewStats()
+			e := &explore.Explorer{Bound: bb, Deadline: deadline, Stats: stats}
+			ok := e.Explore(st.sc)
+			for _, f := range stats.Found {
+				if !st.seen[f.Violation] {
+					st.seen[f.Violation] = true
+					st.found = append(st.found, f)
 				}
 			}
 			if !ok {
-				total.Capped = true
+				capped = true
 				break
 			}
-			last, done = st, b
-			if st.Pruned == 0 {
-				done = bound // nothing was cut by the bound: every interleaving has been explored
-				break
+			st.last, st.done = stats, bb
+			if stats.Pruned == 0 || bb >= st.bound {
+				st.closed = true
+				if stats.Pruned == 0 {
+					st.done = st.bound // nothing was cut by the bound: every interleaving has been explored
+				}
 			}
 		}
-		if last != nil {
-			last.Found = nil
-			total.Merge(last)
+	}
+	total := explore.NewStats()
+	total.Capped = capped
+	minDone := 1 << 30
+	for _, st := range sts {
+		if st.last != nil {
+			st.last.Found = nil
+			total.Merge(st.last)
 		}
-		total.Found = append(total.Found, found...)
-		if done > bound {
-			done = bound
-		}
-		if done < minDone {
-			minDone = done
+		total.Found = append(total.Found, st.found...)
+		if st.done < minDone {
+			minDone = st.done
 		}
 	}
 	if minDone == 1<<30 {
